@@ -531,11 +531,11 @@ def rule_factor_bytes(P):
                 problems.append(f"`{cv}` does not start at the arc's source `{i}`")
             if not step or not fresh:
                 problems.append(f"`{cv}` is not advanced to a fresh state after every byte")
-            if norm(ic.args[1]) != norm(lp.target) or not norm(ic.args[3]).endswith(".one"):
+            if norm(ic.args[1]) != norm(lp.target) or not W.cnorm(f.node, ic.args[3], ic).endswith(".one"):
                 problems.append(f"an inner arc is `{first_line(ic)}`: it must read the loop's byte with weight one")
-            if lc.args[0].id != cv or norm(lc.args[1]) != f"{bs}[-1]" or norm(lc.args[2]) != j or norm(lc.args[3]) != w or W.pos(lc) < W.end_pos(lp):
+            if lc.args[0].id != cv or norm(lc.args[1]) != f"{bs}[-1]" or norm(lc.args[2]) != j or W.cnorm(f.node, lc.args[3], lc) != w or W.pos(lc) < W.end_pos(lp):
                 problems.append(f"the last arc `{first_line(lc)}` must leave `{cv}` on `{bs}[-1]` into `{j}` with weight `{w}`, after the loop")
-            r.add(f, lc, not problems, "; ".join(problems), slots=dict(shape="uniform chain", weights=[norm(ic.args[3]), norm(lc.args[3])]),
+            r.add(f, lc, not problems, "; ".join(problems), slots=dict(shape="uniform chain", weights=[W.cnorm(f.node, ic.args[3], ic), W.cnorm(f.node, lc.args[3], lc)]),
                   construct="to_bytes multi-byte branch")
             r.add(f, ic, not problems, "; ".join(problems), construct="to_bytes: chain connectivity")
             groups = {k: v for k, v in groups.items() if k != "multi"}
@@ -547,15 +547,15 @@ def rule_factor_bytes(P):
         else:
             r.add(f, c, True, construct="to_bytes: ε arcs copied", nontrivial=False)
     for key, cs in groups.items():
-        ws = [norm(c.args[3]) for c in cs]
+        ws = [W.cnorm(f.node, c.args[3], c) for c in cs]
         if key in ("eps", "single"):
             ok = ws == [w]
         else:
             ok = ws.count(w) == 1 and all(x == w or x.endswith(".one") for x in ws) and \
-                all(not W.enclosing_loops(c) or norm(c.args[3]).endswith(".one") or len(W.enclosing_loops(c)) == 1 for c in cs)
+                all(not W.enclosing_loops(c) or W.cnorm(f.node, c.args[3], c).endswith(".one") or len(W.enclosing_loops(c)) == 1 for c in cs)
             # the arc carrying w must not sit in the inner loop over the middle bytes
             for c in cs:
-                if norm(c.args[3]) == w and len(W.enclosing_loops(c)) > 1:
+                if W.cnorm(f.node, c.args[3], c) == w and len(W.enclosing_loops(c)) > 1:
                     ok = False
         r.add(f, cs[0], ok, "" if ok else f"{key}-byte branch emits weights {ws}: the arc weight `{w}` must be carried exactly once",
               slots=dict(branch=key, weights=ws), construct=f"to_bytes {key}-byte branch")
@@ -563,7 +563,7 @@ def rule_factor_bytes(P):
     multi = groups.get("multi", [])
     if len(multi) >= 2:
         first = next((c for c in multi if not W.enclosing_loops(c) or len(W.enclosing_loops(c)) == 1 and norm(c.args[0]) == i), None)
-        last = next((c for c in multi if norm(c.args[3]) == w), None)
+        last = next((c for c in multi if W.cnorm(f.node, c.args[3], c) == w), None)
         inner = [c for c in multi if len(W.enclosing_loops(c)) > 1]
         if first is not None and last is not None and isinstance(first.args[2], ast.Name) and isinstance(last.args[0], ast.Name):
             chainvar = first.args[2].id
